@@ -92,7 +92,12 @@ def check (st : St) (op obs : String) : St × String :=
   | ["reopen"] =>
     -- whatever is on disk, a restart answers (starts or refuses to start): it never panics or hangs
     -- (panic / hang are caught above); locks are gone
-    ({ st with ref := none, prev := none, prevObsTxid := none, lastMax := 0 }, if obs == "ok" || obs == "err open" then "ok" else s!"FAIL restart neither succeeded nor failed cleanly: {obs.take 60}")
+    ({ st with prev := none, prevObsTxid := none, lastMax := 0, posTxid := 0, appliedSince := true },
+     if obs == "ok" then "ok"
+     else if obs == "err open" then (if st.ref.isNone then "ok" else "FAIL restart fails on a data directory left by a clean history")
+     else s!"FAIL restart neither succeeded nor failed cleanly: {obs.take 60}")
+  | ["ref-unknown"] => ({ st with ref := none, prev := none }, "ok")
+  | ["ref-restart"] => (st, "ok")
   | ["expect-recovered"] => (st, "ok")
   | ["crash-begin"] => ({ st with pre := some (st.posTxid, st.posChk, st.lastImg), post := none }, "ok")
   | ["crash-end"] => ({ st with awaitPost := true }, "ok")
